@@ -1,3 +1,4 @@
+mod alloc;
 mod badgen;
 mod chainsim;
 mod checks;
@@ -8,9 +9,13 @@ mod rng;
 mod sim;
 mod storesim;
 mod txhsim;
+mod wiresim;
 mod world;
 
 use serde_json::Value;
+
+#[global_allocator]
+static GLOBAL: alloc::Counting = alloc::Counting;
 use std::time::Instant;
 
 fn usage() -> ! {
@@ -94,6 +99,13 @@ fn main() {
 				Some("storesim") => storesim::replay(rp),
 				Some("crashsim") => crashsim::replay(rp),
 				Some("txhsim") => txhsim::replay(rp),
+				Some("wiresim") => {
+					if rp["property"].as_str() == Some("C11") {
+						wiresim::replay_c11(rp)
+					} else {
+						wiresim::replay(rp)
+					}
+				}
 				other => Err(format!("unknown engine {:?}", other)),
 			};
 			node::cleanup_scratch_root();
